@@ -40,6 +40,7 @@ where
     } = proof;
 
     let cap_height = params.config.cap_height;
+    ensure!(commit_phase_merkle_caps.len() == params.reduction_arity_bits.len());
     for cap in commit_phase_merkle_caps {
         ensure!(cap.len() == 1 << cap_height);
     }
